@@ -143,6 +143,21 @@ CHECKS = {
               "through the pool wrapper."),
         technique="TLA+ spec (SamplerFaults) model-checked with TLC to enumerate crash points; fault injection at every dynamic call; trace validation by total monitor",
     ),
+    "C12": dict(
+        category="model_checking",
+        text=("TLC exhausts SampleFileMC - histories of 3 writes over 24 table shapes x overwrite x append (about 1M states) - for the "
+              "action properties AppendIsConcat, RefusedLeavesFile, RefusedOnlyWhenIncompatible. Every history of two writes TLC "
+              "enumerates is replayed on a real HDF5 file (quick: seeded subset), followed by a read and batch reads (range, slice, "
+              "unsorted / repeated index arrays, random subsets; column subsets; requested units); after every step the logical "
+              "content read back (per-row SHA-256 of the float64 values, row ids, columns, units, t_ref, poly_trend, n_offsets) must "
+              "be an outcome the SampleFile specification allows (SampleFileTrace monitor). Seeded random histories go to 6 "
+              "operations on tables of up to 200/5000 rows and include FITS write/read."),
+        design_ref="DESIGN.md section 3 C12",
+        note=("Trusted: TLC, astropy/h5py/PyTables. An append where exactly one side has no reference epoch may be accepted or refused "
+              "(the property does not define it; astropy's metadata merge treats None as unspecified). Batch values are decoded "
+              "through the requested unit with a 1e-6 lattice tolerance."),
+        technique="TLA+ spec (SampleFile/SampleFileMC) model-checked with TLC; replay of TLC-enumerated histories on real files; trace validation by total monitor",
+    ),
 }
 
 NOT_YET = "check not built yet (build in progress; see DESIGN.md section 7)"
